@@ -217,6 +217,18 @@ func detectZIPFormat(r io.ReaderAt, size int64) (Format, error) {
 		}
 	}
 
+	// Office Open XML: the package type is declared by the content type of
+	// its main part in [Content_Types].xml. Member names alone do not decide:
+	// a workbook may carry a stray "word/" entry, a document may embed other
+	// packages, and archive order is arbitrary.
+	for _, f := range zr.File {
+		if f.Name == "[Content_Types].xml" {
+			if detected := detectOOXMLContentTypes(f); detected != Unknown {
+				return detected, nil
+			}
+		}
+	}
+
 	// Check for EPUB container (META-INF/container.xml)
 	for _, f := range zr.File {
 		if f.Name == "META-INF/container.xml" {
@@ -240,4 +252,37 @@ func detectZIPFormat(r io.ReaderAt, size int64) (Format, error) {
 	}
 
 	return Unknown, nil
+}
+
+// detectOOXMLContentTypes reads [Content_Types].xml and returns the format
+// named by the content type of the package's main part, or Unknown.
+func detectOOXMLContentTypes(f *zip.File) Format {
+	rc, err := f.Open()
+	if err != nil {
+		return Unknown
+	}
+	defer rc.Close()
+
+	data, err := io.ReadAll(io.LimitReader(rc, 1<<20))
+	if err != nil {
+		return Unknown
+	}
+	types := string(data)
+
+	switch {
+	case strings.Contains(types, "wordprocessingml.document.main+xml"),
+		strings.Contains(types, "wordprocessingml.template.main+xml"),
+		strings.Contains(types, "ms-word.document.macroEnabled.main+xml"):
+		return DOCX
+	case strings.Contains(types, "spreadsheetml.sheet.main+xml"),
+		strings.Contains(types, "spreadsheetml.template.main+xml"),
+		strings.Contains(types, "ms-excel.sheet.macroEnabled.main+xml"):
+		return XLSX
+	case strings.Contains(types, "presentationml.presentation.main+xml"),
+		strings.Contains(types, "presentationml.slideshow.main+xml"),
+		strings.Contains(types, "presentationml.template.main+xml"),
+		strings.Contains(types, "ms-powerpoint.presentation.macroEnabled.main+xml"):
+		return PPTX
+	}
+	return Unknown
 }
